@@ -190,9 +190,17 @@ def run(ctx):
         # a replay file is the rejected execution: its Begin line carries the program
         lines = [json.loads(x) for x in open(ctx.replay_path) if x.strip().startswith("{")]
         progs = [e["prog"] for e in lines if e.get("e") == "Begin" and "prog" in e] + [e for e in lines if "scripts" in e]
-        if not progs:
-            raise vlib.Infra("no program in replay file " + ctx.replay_path)
-        run_programs(ctx, exe, progs, "replay")
+        if progs:
+            run_programs(ctx, exe, progs, "replay")
+            return
+        # otherwise the file is a counterexample of a bounded model: re-run the models of the quick tier
+        try:
+            for name, programs, kw, inv in ASFOUND_QUICK:
+                ctx.tlc_mc(SPEC, "MC_Coroutine.tla", write_cfg(name, programs, emit=False, **kw), expect=inv, coverage=False, timeout=600)
+            for name, programs, seminit, clogic in QUICK:
+                ctx.tlc_mc(SPEC, "MC_Coroutine.tla", write_cfg(name, programs, seminit, clogic, emit=False), coverage=False, timeout=3000)
+        finally:
+            _clean_ttrace()
         return
     fams = QUICK if ctx.quick() else QUICK + THOROUGH
     asfound = ASFOUND_QUICK if ctx.quick() else ASFOUND_QUICK + ASFOUND_THOROUGH
@@ -228,7 +236,7 @@ def run(ctx):
     finally:
         _clean_ttrace()
     ctx.assumptions = [
-        "main-context actions happen between loop passes (in-loop driver task that runs first in every pass); nothing is created or "
+        "main-context actions happen between loop passes (in-loop driver task that runs last in every pass, after every schedule() call queued so far); nothing is created or "
         "resumed after cleanup()",
         "idle = two consecutive loop passes in which no routine ran and the main context did nothing",
         "values sent are unique per program (routine*100 + step), so duplication / reordering is visible",
